@@ -72,6 +72,12 @@ Stop(p, i) ==
   /\ UNCHANGED <<dc, secs, nextMid, hist>>
   /\ last' = [op |-> "stop", who |-> p, n |-> i - 1]
 
+\* the application calls SetMid on a transceiver that already has one: refused, nothing changes
+SetMid(p, i) ==
+  /\ "setMid" \in Ops /\ Tick /\ i \in 1..Len(trs[p]) /\ trs[p][i].mid # NoMid
+  /\ UNCHANGED <<trs, dc, secs, nextMid, hist>>
+  /\ last' = [op |-> "setMid", who |-> p, n |-> i - 1]
+
 CreateDC(p) ==
   /\ "createDC" \in Ops /\ Tick /\ ~dc[p]
   /\ dc' = [dc EXCEPT ![p] = TRUE]
@@ -129,7 +135,7 @@ Negotiate(p) ==
 
 Step == \/ \E p \in Peers, k \in Kinds, d \in Dirs, w \in BOOLEAN : AddTransceiver(p, k, d, w)
         \/ \E p \in Peers, k \in Kinds : AddTrack(p, k)
-        \/ \E p \in Peers, i \in 1..MaxTrs + 2 : RemoveTrack(p, i) \/ Stop(p, i)
+        \/ \E p \in Peers, i \in 1..MaxTrs + 2 : RemoveTrack(p, i) \/ Stop(p, i) \/ SetMid(p, i)
         \/ \E p \in Peers : CreateDC(p) \/ OfferOnly(p) \/ Negotiate(p)
 Next == Step /\ path' = IF RecordPath THEN Append(path, last') ELSE path
 
